@@ -61,7 +61,7 @@ pub(crate) fn k_store_error(err: Error) -> libc::c_int {
 macro_rules! capi_h {
     ($name:ident, $body:block) => {
         #[kani::proof]
-        #[kani::unwind(6)]
+        #[kani::unwind(8)]
         #[kani::stub(crate::root::RootRef::create, crate::root::RootRef::k_create)]
         #[kani::stub(crate::root::RootRef::create_file, crate::root::RootRef::k_create_file)]
         #[kani::stub(crate::root::RootRef::resolve, crate::root::RootRef::k_resolve_cap)]
